@@ -20,17 +20,24 @@ type Site struct {
 	// Exec performs the request whose position holds the quoted text and returns the SQL that was sent.
 	Exec func(e *Env, text string) ([]string, error)
 	// Variants: acceptable readings (nil = the literal must decode to the value itself).
-	Variants func(v string) []Variant
+	Variants func(q Quoted) []Variant
 	// Classify names a finding by explanation (nil = Group:Reason).
 	Classify func(v string, f *Finding) string
 	// NotInSQL documents that the position is expected never to reach a statement.
 	NotInSQL bool
+	// Kind: "regex" (the value is a regular expression), "plain" (a plain string value), "" (identifier, template,
+	// structured value): decides which context templates (quote.go) are applied around the hostile string.
+	Kind string
+	// Ctx is the name of the context template of this site ("" = none); Base the ID of the site without context,
+	// BaseQuote its quoting form without the template.
+	Ctx, Base string
+	BaseQuote QuoteFn
 	// Secondary: one more request shape around a position that a primary site already covers with the full hostile
 	// set; the quick tier gives it the reduced set (hostile.go), the thorough tier everything.
 	Secondary bool
 }
 
-func fixedVariants(vs []Variant) func(string) []Variant { return func(string) []Variant { return vs } }
+func fixedVariants(vs []Variant) func(Quoted) []Variant { return func(Quoted) []Variant { return vs } }
 
 // tmpl replaces the single hole § of a request template.
 func tmpl(t, text string) string { return strings.Replace(t, "§", text, 1) }
@@ -46,6 +53,7 @@ func init() {
 	tempoSites()
 	promSites()
 	profSites()
+	expandContexts()
 	seen := map[string]bool{}
 	for i := range sites {
 		s := &sites[i]
@@ -54,13 +62,62 @@ func init() {
 		}
 		seen[s.ID] = true
 		for _, re := range secondaryShapes {
-			if re.MatchString(s.ID) {
+			if re.MatchString(s.Base) {
 				s.Secondary = true
 			}
 		}
 		// identifier positions: the front ends refuse almost every hostile string; quick tier = reduced set
 		if s.Quote.Name == "whole" || s.Quote.Name == "suffix" {
 			s.Secondary = true
+		}
+	}
+}
+
+// kindOf classifies string-valued sites by their ID: regex operators / regex line filters are "regex", other value
+// positions "plain"; identifiers, templates, structured values (json path, regexp body, type id, trace id) get none.
+var (
+	reKindRegex = regexp.MustCompile(`/(re|nre|match|not_match)/|/shape_(sum_by|absent)/|/(resource_or_paren|complex_or|values_v2)/|^prof/selector_special/[a-z_]+/re/`)
+	reKindPlain = regexp.MustCompile(`^(logql/(stream_value|label_filter_value|drop_value|line_filter/(contains|not_contains))|labels/(values_match|series_match/(eq|neq|prom_name_form)|prom_values_match)|traceql/attr_value|tempo/search_tag_value|promql/(matcher_value|metric_name_matcher)|prof/selector_(value|special))/`)
+)
+
+func kindOf(id string) string {
+	switch {
+	case reKindRegex.MatchString(id):
+		return "regex"
+	case reKindPlain.MatchString(id):
+		return "plain"
+	}
+	return ""
+}
+
+// expandContexts adds, for every regex- and plain-valued site, one site per context template.
+func expandContexts() {
+	base := sites
+	sites = nil
+	for _, s := range base {
+		s.Kind = kindOf(s.ID)
+		s.Base = s.ID
+		s.BaseQuote = s.Quote
+		var ctxs []Ctx
+		switch s.Kind {
+		case "regex":
+			ctxs = regexCtxs
+			if s.Variants == nil {
+				s.Variants = regexValueVariants
+			}
+		case "plain":
+			ctxs = plainCtxs
+		default:
+			ctxs = []Ctx{idCtx}
+		}
+		for _, c := range ctxs {
+			d := s
+			d.Ctx = c.Name
+			if c.Name != "" {
+				d.ID = s.ID + "@" + c.Name
+				d.Quote = withCtx(s.Quote, c)
+			}
+			sites = append(sites, d)
 		}
 	}
 }
@@ -89,12 +146,12 @@ func logqlRangeSite(id, group, t string, q QuoteFn, cluster bool) Site {
 		Exec: func(e *Env, text string) ([]string, error) { return e.logqlRange(tmpl(t, text), cluster) }}
 }
 
-func likeClassify(pre func(string) (string, bool)) func(string, *Finding) string {
+func likeClassify(pre func(Val) (string, bool)) func(string, *Finding) string {
 	return func(v string, f *Finding) string {
 		if f.Reason != "literal_value_mismatch" {
 			return ""
 		}
-		lit, ok := pre(v)
+		lit, ok := pre(Val{v, v})
 		if !ok {
 			return ""
 		}
@@ -239,8 +296,8 @@ func logqlSites() {
 			Exec: func(e *Env, text string) ([]string, error) {
 				return e.logqlDirect(tmpl(`{a="b"} | line_format §`, text), false)
 			},
-			Variants: func(v string) []Variant {
-				return wrapVariants(lineFormatVariants(v), func(b string) string { return "{0} " + b + " {1}" })
+			Variants: func(q Quoted) []Variant {
+				return wrapVariants(lineFormatVariants(q), func(b string) string { return "{0} " + b + " {1}" })
 			}})
 	}
 
@@ -313,8 +370,8 @@ func regexpStandIn(body, filler string) string {
 	return out[len("(?P<l>") : len(out)-1]
 }
 
-func regexpStripNames(body string) (string, bool) {
-	whole := "(?P<l>" + body + ")"
+func regexpStripNames(v Val) (string, bool) {
+	whole := "(?P<l>" + v.Whole + ")"
 	toks := regexpTok.FindAllString(whole, -1)
 	var b strings.Builder
 	for i := 0; i < len(toks); i++ {
@@ -328,14 +385,14 @@ func regexpStripNames(body string) (string, bool) {
 	return b.String(), true
 }
 
-func regexpBodyVariants(v string) []Variant {
-	return []Variant{{"regexp_same_groups", regexpStandIn(v, "x"), regexpStandIn(v, "y"),
-		[]Transform{{"regex_without_group_names", TExact, regexpStripNames}}}}
+func regexpBodyVariants(q Quoted) []Variant {
+	return []Variant{{Name: "regexp_same_groups", BX: regexpStandIn(q.Value, "x"), BY: regexpStandIn(q.Value, "y"),
+		T: []Transform{{"regex_without_group_names", TExact, regexpStripNames}}}}
 }
 
 // line_format template: text nodes are copied into format('<text>{0}…', labels['f'], …).
-func templateText(v string) (string, bool) {
-	t, err := template.New("t").Parse(v)
+func templateText(v Val) (string, bool) {
+	t, err := template.New("t").Parse(v.Whole)
 	if err != nil || t.Tree == nil || t.Root == nil {
 		return "", false
 	}
@@ -350,8 +407,8 @@ func templateText(v string) (string, bool) {
 	return b.String(), true
 }
 
-func lineFormatVariants(string) []Variant {
-	return []Variant{{"template_text", "x", "y", []Transform{{"template_text", TExact, templateText}}}}
+func lineFormatVariants(Quoted) []Variant {
+	return []Variant{{Name: "template_text", BX: "x", BY: "y", T: []Transform{{"template_text", TExact, templateText}}}}
 }
 
 func wrapVariants(vs []Variant, wrap func(string) string) []Variant {
@@ -361,7 +418,7 @@ func wrapVariants(vs []Variant, wrap func(string) string) []Variant {
 		ts := make([]Transform, len(va.T))
 		for j, tr := range va.T {
 			tr := tr
-			ts[j] = Transform{tr.Name, tr.Kind, func(v string) (string, bool) {
+			ts[j] = Transform{tr.Name, tr.Kind, func(v Val) (string, bool) {
 				p, ok := tr.Pre(v)
 				if !ok {
 					return "", false
@@ -369,7 +426,7 @@ func wrapVariants(vs []Variant, wrap func(string) string) []Variant {
 				return wrap(p), true
 			}}
 		}
-		out[i] = Variant{va.Name, va.BX, va.BY, ts}
+		out[i] = Variant{Name: va.Name, BX: va.BX, BY: va.BY, T: ts, Whole: va.Whole}
 	}
 	return out
 }
@@ -529,7 +586,7 @@ func tempoSites() {
 	add(Site{ID: "tempo/trace_id", Group: "tempo_trace_id", Lang: "url", Quote: qPlain,
 		Exec: func(e *Env, text string) ([]string, error) { return e.tempoTrace(text) },
 		// a harmless trace id is hex
-		Variants: fixedVariants([]Variant{{"value", "ab", "cd", []Transform{tExact}}})})
+		Variants: fixedVariants([]Variant{{Name: "value", BX: "ab", BY: "cd", T: []Transform{tExact}}})})
 }
 
 // tempoV1TagName: /api/search/tag/{tag}/values accepts scoped names; the scope prefix is not part of the key
@@ -708,11 +765,11 @@ func profSites() {
 		variants := defaultVariants
 		switch i {
 		case 1:
-			variants = []Variant{{"value", "x", "y", []Transform{tExact,
-				{"type:unit", TExact, func(v string) (string, bool) { return v + ":" + parts[2], true }}}}}
+			variants = []Variant{{Name: "value", BX: "x", BY: "y", T: []Transform{tExact,
+				{"type:unit", TExact, func(v Val) (string, bool) { return v.Whole + ":" + parts[2], true }}}}}
 		case 2:
-			variants = []Variant{{"value", "x", "y", []Transform{tExact,
-				{"type:unit", TExact, func(v string) (string, bool) { return parts[1] + ":" + v, true }}}}}
+			variants = []Variant{{Name: "value", BX: "x", BY: "y", T: []Transform{tExact,
+				{"type:unit", TExact, func(v Val) (string, bool) { return parts[1] + ":" + v.Whole, true }}}}}
 		}
 		for _, call := range []string{"merge_stacktraces", "select_series", "merge_profiles"} {
 			call := call
